@@ -86,9 +86,40 @@ def unit_rac(eng, tier="quick"):
     return dict(unit="reorder-rac", func="Compiler (run-time check)", paths=len(jobs), obligations=[ob], wall=0.0)
 
 
+def unit_use_positions(eng):
+    """run-time check of the 'uses in every operand and directive position' clause: one constant used in each kind of position, its definition
+    placed before and after the use - same bytes and same outcome.  Finding D44: a statement that is just the symbol (implicit .word)."""
+    uses = [".word x", ".byte x", "mov #x, r0", "mov x(r1), r0", "mov @#x, r0", "mov x, r0", ".blkb x", ".repeat x { nop }", ".rad50 <x>", ".ascii <x>", "emt x", "mov %x, r0", ".dword x",
+            "br .+x", "y = x + 1\n.word y", ".word x / 2", ".word x _ 1", "1, x", ".align x", ". = . + x"]
+    bare = ["x", "x, 1"]
+    jobs = []
+    for u in uses + bare:
+        jobs.append({"kind": "asm", "sources": ["x = 4\n%s\n" % u]})
+        jobs.append({"kind": "asm", "sources": ["%s\nx = 4\n" % u]})
+    res = driver.native(jobs, driver.tree_root())
+    bad, known = [], []
+    for i, u in enumerate(uses + bare):
+        a, b = res[2 * i], res[2 * i + 1]
+        if (a["status"], a.get("code_hex")) != (b["status"], b.get("code_hex")):
+            (known if u in bare and "D44" in common.ACTIVE_FINDINGS else bad).append((u, [a["status"], a.get("code_hex")], [b["status"], b.get("code_hex"), [d[1] for d in b.get("diags", [])][:1]]))
+    status = "failed" if bad else ("known-region" if known else "proved")
+    ob = dict(label="a-constant-used-in-each-kind-of-position-gives-the-same-bytes-and-outcome-defined-before-or-after-the-use", kind="rac", status=status, secs=0.0, path=[], witness=None,
+              detail=str(dict(new=bad[:4], known_D44=known[:2])), events=[], smt2=None, backend="cpython-native", unit="use-positions-rac", func="Compiler (run-time check)", cases=len(jobs),
+              cfg=dict(kind="rac"))
+    return dict(unit="use-positions-rac", func="Compiler (run-time check)", paths=len(jobs), obligations=[ob], wall=0.0)
+
+
+def witness_D44(tree):
+    res = driver.native([{"kind": "asm", "sources": ["x = 4\nx\n"]}, {"kind": "asm", "sources": ["x\nx = 4\n"]}], tree)
+    return (res[0]["status"], res[0].get("code_hex")) != (res[1]["status"], res[1].get("code_hex")), "'x = 4 / x' -> %s, 'x / x = 4' -> %s" % (res[0]["status"], res[1]["status"])
+
+
+FINDING_WITNESS = dict(globals().get("FINDING_WITNESS", {}), D44=witness_D44)
+
+
 def units(tier):
     import itertools
-    us = [("rac", "unit_rac", dict(tier=tier)), ("lemma", "unit_lemma", {}), ("declare_external", "unit_declare_external", {}), ("wait", "unit_wait", {})]
+    us = [("rac", "unit_rac", dict(tier=tier)), ("use-positions", "unit_use_positions", {}), ("lemma", "unit_lemma", {}), ("declare_external", "unit_declare_external", {}), ("wait", "unit_wait", {})]
     for sp in (False, True):
         for dn in (False, True):
             us.append(("resolve[%s,%s]" % (sp, dn), "unit_resolve", dict(speculative=sp, digit_name=dn)))
@@ -117,10 +148,14 @@ def canary(eng):
 
 def replay(o, tree):
     import os
+    if o.get("unit") == "use-positions-rac":
+        return None          # evaluated on the real assembler already: the failing use is in the obligation's detail
     if (o.get("cfg") or {}).get("kind") == "poly-nested":
         return deferred_c.replay_poly_nested(o["cfg"], o.get("witness") or {}, tree)
     if (o.get("cfg") or {}).get("kind") == "poly-selfref":
         return deferred_c.replay_poly_selfref(o["cfg"], o.get("witness") or {}, tree)
+    if (o.get("cfg") or {}).get("kind") == "poly-mul":
+        return deferred_c.replay_poly_mul(o["cfg"], o.get("witness") or {}, tree)
     old = os.environ.get("PDPY11_SRC")
     os.environ["PDPY11_SRC"] = tree
     try:
